@@ -139,7 +139,10 @@ type E2E struct {
 	NOps    int
 	Streams int
 	Via     string // "conn" (default), "transport", "client"
-	virtual bool
+	// HookDelayUs > 0 installs hook H1 (transport.gotConn) sleeping up to that
+	// many microseconds between obtaining a pooled connection and using it
+	HookDelayUs int
+	virtual     bool
 }
 
 func (p E2E) String() string {
@@ -446,6 +449,23 @@ func RunE2EOn(env Env, p E2E, start func(cfg rig.Config, seed int64) (*rig.Rig, 
 		cl = rpc.NewClient(nil)
 		cl.Transport = tr
 		cl.Update(addr)
+		// let the client's detector find the target (its first ticks), so that
+		// no operation of the workload starts by waiting for a live target
+		time.Sleep(250 * time.Millisecond)
+	}
+	if p.HookDelayUs > 0 && tr != nil {
+		var hmu sync.Mutex
+		hrng := rand.New(rand.NewSource(p.Seed + 5))
+		rpc.VerifSetHook(func(point string) {
+			if point != "transport.gotConn" {
+				return
+			}
+			hmu.Lock()
+			d := time.Duration(hrng.Intn(p.HookDelayUs)) * time.Microsecond
+			hmu.Unlock()
+			time.Sleep(d)
+		})
+		defer rpc.VerifSetHook(nil)
 	}
 	conns := make([]*e2eConn, p.Conns)
 	for i := range conns {
@@ -858,6 +878,9 @@ func judgeE2E(out *Outcome, p E2E, r *rig.Rig, conns []*e2eConn, all []*Op, stre
 		case KCall:
 			if rec.Err != nil {
 				out.add(unexpectedProp, unexpectedProp+"/e2e/unexpected-error", fmt.Sprintf("%s of a well-formed request (id %s) failed with %q although no fault was injected (%s)", o.Form, id, rec.ErrText, cfgs), nil)
+				if kinds[KCtxCancel] > 0 {
+					out.add("C19", "C19/e2e/sibling-harmed", fmt.Sprintf("%s of a well-formed request (id %s), issued alongside calls abandoned by their contexts, failed with %q (%s, via %s)", o.Form, id, rec.ErrText, cfgs, p.Via), nil)
+				}
 				continue
 			}
 			okCalls++
@@ -925,7 +948,8 @@ func judgeE2E(out *Outcome, p E2E, r *rig.Rig, conns []*e2eConn, all []*Op, stre
 				}
 			} else if rec.Err != context.DeadlineExceeded {
 				out.add("C19", "C19/e2e/wrong-error", fmt.Sprintf("CallWithContext %s whose deadline (%v) precedes the reply (handler delay %dus) returned %q instead of the context's error (%s)", id, o.Timeout, o.Spec.DelayUs, rec.ErrText, cfgs), nil)
-			} else if p.virtual && o.Elapsed != o.Timeout {
+			} else if p.virtual && (o.Elapsed < o.Timeout || o.Elapsed > o.Timeout+time.Duration(p.HookDelayUs)*time.Microsecond) {
+				// (the H1 hook, when installed, sleeps up to HookDelayUs inside the Transport before the call proper)
 				out.add("C19", "C19/e2e/late-return", fmt.Sprintf("CallWithContext %s returned %v after the call although its context was done after %v (virtual time) (%s)", id, o.Elapsed, o.Timeout, cfgs), nil)
 			}
 			if len(ex) > 1 {
